@@ -34,6 +34,7 @@ func init() {
 			}
 			return []runner.Phase{
 				{Name: "cut-enum", Variant: "plain", Cases: m, Run: c07enum, CaseTimeout: 120 * time.Second, Required: []string{"cuts_injected", "frames_checked"}},
+				{Name: "tcp", Variant: "race", Cases: n / 2, Run: c07tcp, CaseTimeout: 180 * time.Second, Required: []string{"tcp_scenarios", "tcp_slow_reader_scenarios", "tcp_frames_checked", "tcp_failed_writes"}},
 				{Name: "mixed", Variant: "race", Cases: n, Run: c07mixed, CaseTimeout: 180 * time.Second, Required: []string{"cuts_injected", "frames_checked", "coalesced_scenarios", "direct_scenarios", "stall_scenarios"}},
 			}
 		},
